@@ -39,6 +39,10 @@ class AsyncioRunner(BaseRunner):
             result = await payload()
         except (asyncio.CancelledError, KeyboardInterrupt):
             raise
+        except StopIteration as e:
+            # raised by calling the payload: cannot be raised into a Future (compare PEP 479)
+            failure = RuntimeError("payload %r raised StopIteration" % payload)
+            failure.__cause__ = e
         except BaseException as e:  # noqa: B036
             failure = e
         else:
